@@ -54,3 +54,6 @@ def witness_search(tier, seed):
             if list(c2.items()) != exp:
                 return dict(input=dict(chart=items), detail=f"SSCChart.from_str(str(chart)) gives {list(c2.items())!r}")
     return None
+
+from pyvc.xcheck import MsdTextProbe   # noqa: E402
+THOROUGH_BOUNDED = [MsdTextProbe()]
